@@ -494,6 +494,65 @@ fn gen_hf_lattice_case(r: &mut Rng, lat: bool, fam: &mut std::collections::BTree
     out
 }
 
+/// `shape::RoundShapeRef` is crate-private: the same support map, written out (used only to record what
+/// `gjk::directional_distance` answers on the rounded first shape)
+struct RoundRef<'a> { inner_shape: &'a dyn px::shape::SupportMap, border_radius: f64 }
+impl px::shape::SupportMap for RoundRef<'_> {
+    fn local_support_point(&self, dir: &V) -> P { self.local_support_point_toward(&Unit::new_normalize(*dir)) }
+    fn local_support_point_toward(&self, dir: &Unit<V>) -> P { self.inner_shape.local_support_point_toward(dir) + **dir * self.border_radius }
+}
+
+/// the GJK-route cast with its three GJK-layer results recorded next to the arguments (`taps`), so that the model can
+/// reproduce everything the function does around them: zero / tiny relative velocity, target 0 / > 0 (rounded shape),
+/// `max_time_of_impact` below / at / above the GJK time, start-up contacts (touching, penetrating, within target) with all
+/// four flag combinations, approaching / separating / tangential velocities
+fn gen_smsm_case(r: &mut Rng, lat: bool) -> Option<(String, String)> {
+    use px::query::gjk::{self, VoronoiSimplex};
+    let zero = V::zeros();
+    let (s1, rad1) = gen_gjk_shape(r, lat, &zero);
+    let (s2, rad2) = gen_gjk_shape(r, lat, &zero);
+    let (g1, g2) = (mk(&s1), mk(&s2));
+    let (m1, m2) = (g1.as_support_map()?, g2.as_support_map()?);
+    let mut o = gen_opts(r, lat);
+    if r.below(3) == 0 { o.target_distance = 0.0; }
+    let mut pos12 = dx::gen_iso(r, lat, 1.0);
+    let dir = gen_unit(r, lat);
+    let reach = rad1 + rad2 + o.target_distance;
+    pos12.translation.vector = dir * (reach * *r.pick(&[0.0, 0.25, 0.5, 0.75, 1.0, 1.25, 2.0, 3.0]));
+    let sc = if lat { *r.pick(&[0.25, 1.0, 4.0]) } else { r.logu(1e-2, 1e2) };
+    let side = { let t = ortho(&dir); let n = t.norm(); if n > 0.0 { t / n } else { t } };
+    let vel = match r.below(10) {
+        0 => V::zeros(),
+        1 => dir * 1.0e-17,                                   // below the relative_eq! threshold
+        2 => -dir * (f64::EPSILON * *r.pick(&[0.5, 1.0, 2.0])),   // around it
+        3 | 4 | 5 => -dir * sc,
+        6 => dir * sc,
+        7 => side * sc,
+        8 => (-dir + side * *r.pick(&[0.25, 1.0])) * sc,
+        _ => dx::gen_v(r, lat, if lat { 1.0 } else { 20.0 }),
+    };
+    let round = RoundRef { inner_shape: m1, border_radius: o.target_distance };
+    // a start-up window hit with a positive time (0 < toi < 1e-5): speed the approach up
+    let mut vel = vel;
+    if r.below(5) == 0 {
+        let d0 = if o.target_distance > 0.0 { gjk::directional_distance(&pos12, &round, m2, &vel, &mut VoronoiSimplex::new()) }
+                 else { gjk::directional_distance(&pos12, m1, m2, &vel, &mut VoronoiSimplex::new()) };
+        if let Some((t, _, _, _)) = d0 { if t > 1.0e-5 && t < 1.0e3 { vel *= t / *r.pick(&[1.0e-6, 5.0e-6, 2.0e-5, 1.0e-5]); } }
+    }
+    let dd_plain = gjk::directional_distance(&pos12, m1, m2, &vel, &mut VoronoiSimplex::new());
+    let dd_round = gjk::directional_distance(&pos12, &round, m2, &vel, &mut VoronoiSimplex::new());
+    // max_time_of_impact ties with the GJK time
+    if let Some((t, _, _, _)) = if o.target_distance > 0.0 { dd_round } else { dd_plain } {
+        if t > 0.0 && t.is_finite() { match r.below(6) { 0 => o.max_time_of_impact = t, 1 => o.max_time_of_impact = f64::from_bits(t.to_bits() - 1), 2 | 3 | 4 => o.max_time_of_impact = t * 2.0, _ => {} } }
+    }
+    let c_t = px::query::details::contact_support_map_support_map(&pos12, m1, m2, o.target_distance);
+    let c_m = px::query::details::contact_support_map_support_map(&pos12, m1, m2, f64::MAX);
+    let fc = |c: &Option<px::query::Contact>| match c { None => "0".to_string(),
+        Some(c) => format!("1 {} {} {} {} {}", dx::hp(&c.point1), dx::hp(&c.point2), dx::hv(&c.normal1), dx::hv(&c.normal2), hx(c.dist)) };
+    let fd = |d: &Option<(f64, V, P, P)>| match d { None => "0".to_string(), Some((t, n, w1, w2)) => format!("1 {} {} {} {}", hx(*t), dx::hv(n), dx::hp(w1), dx::hp(w2)) };
+    Some(("smsm".into(), format!("{} {} {} {} {} {} {} {} shapes {} {}", dx::hiso(&pos12), dx::hv(&vel), hopts(&o), hx(vel.norm()), fc(&c_t), fd(&dd_plain), fd(&dd_round), fc(&c_m), s1, s2)))
+}
+
 pub fn gen(r: &mut Rng, thorough: bool) -> Vec<(String, String)> {
     let n = if thorough { 4000 } else { 400 };
     let mut v: Vec<(String, String)> = Vec::new();
@@ -652,6 +711,8 @@ pub fn gen(r: &mut Rng, thorough: bool) -> Vec<(String, String)> {
     for it in 0..(if thorough { 2400 } else { 240 }) { v.extend(gen_hf_lattice_case(r, it % 4 != 3, &mut fam)); }
     // ---- the trace of the 3-D height-field cell walk (bit-exact model + exact covering oracle)
     v.extend(gen_hfwalk(r, thorough));
+    // ---- the exit conditions of the GJK-route cast around its GJK-layer calls (bit-exact glue model + clause oracle)
+    for it in 0..(if thorough { 12000 } else { 1200 }) { if let Some(c) = gen_smsm_case(r, it % 2 == 0) { v.push(c); } }
     if std::env::var("C06_FAMILIES").is_ok() { for (k, n) in &fam { eprintln!("family {} {}", k, n); } }
     v
 }
